@@ -146,8 +146,13 @@ class W:
         self.dc.append((len(self.b), len(self.b) + n))
         self.b += self.junk(n) if self.junk else bytes(n)
 
+    full_ok = False     # other software may fill a field completely, without a terminator
+
     def S(self, width, s):
         e = cp_encode(s)
+        if self.full_ok and e is not None and b"\0" not in e and len(e) == width:
+            self.b += e
+            return
         if e is None or b"\0" in e or len(e) >= width:
             raise LayoutError(f"text not storable in {width} bytes: {s!r}")
         self.b += e + b"\0"
@@ -524,8 +529,9 @@ _DEC = {T_DATA3D: dec_data3d, T_EMG: dec_emg, T_FORCE3D: dec_force3d, T_PLATDATA
         T_EVENTS: dec_events}
 
 
-def encode_block(spec, junk=None, want_dc=False):
+def encode_block(spec, junk=None, want_dc=False, full_ok=False):
     w = W(junk)
+    w.full_ok = full_ok
     _ENC[spec["type"]](w, spec)
     return (bytes(w.b), list(w.dc)) if want_dc else bytes(w.b)
 
